@@ -5,6 +5,8 @@ package main
 
 import (
 	"fmt"
+	"os"
+	"os/exec"
 	"sort"
 	"strings"
 )
@@ -192,9 +194,77 @@ func (p *Path) query(c *Term, wantModel bool) (SatResult, Model) {
 	}
 	p.solver.Send("(pop 1)")
 	if r == Unknown {
+		// second opinion from the other solvers on a self-contained script
+		if r2, m2 := p.fallback(c, wantModel); r2 != Unknown {
+			p.w.fallbacks++
+			return r2, m2
+		}
 		p.inconcl = append(p.inconcl, "solver unknown/error: "+p.solver.LastErr)
 	}
 	return r, m
+}
+
+// fallback re-submits pc ∧ c as a stand-alone script to z3 5.x and to cvc5
+// (with the integer encoding of bit-vector arithmetic), each under a longer limit.
+func (p *Path) fallback(c *Term, wantModel bool) (SatResult, Model) {
+	var sb strings.Builder
+	sb.WriteString("(set-option :produce-models true)\n(set-logic ALL)\n")
+	names := make([]string, 0, len(p.vars))
+	for n := range p.vars {
+		names = append(names, n)
+	}
+	sort.Strings(names)
+	for _, n := range names {
+		sb.WriteString(fmt.Sprintf("(declare-const %s %s)\n", smtName(n), sortStr(p.vars[n])))
+	}
+	pr := Printer{}
+	for _, t := range p.pc {
+		sb.WriteString("(assert " + pr.Print(t) + ")\n")
+	}
+	sb.WriteString("(assert " + pr.Print(c) + ")\n(check-sat)\n")
+	if wantModel && len(names) > 0 {
+		sb.WriteString("(get-value (")
+		for _, n := range names {
+			sb.WriteString(smtName(n) + " ")
+		}
+		sb.WriteString("))\n")
+	}
+	f, err := os.CreateTemp("", "gosmt-fallback-*.smt2")
+	if err != nil {
+		return Unknown, nil
+	}
+	defer os.Remove(f.Name())
+	f.WriteString(sb.String())
+	f.Close()
+	limit := p.w.cfg.FallbackSec
+	if limit == 0 {
+		limit = 60
+	}
+	for _, cmd := range [][]string{
+		{"cvc5", "--solve-bv-as-int=sum", "--produce-models", fmt.Sprintf("--tlimit=%d", limit*1000), f.Name()},
+		{"z3-new", fmt.Sprintf("-T:%d", limit), f.Name()},
+		{"cvc5", "--produce-models", fmt.Sprintf("--tlimit=%d", limit*1000), f.Name()},
+	} {
+		out, _ := exec.Command(cmd[0], cmd[1:]...).CombinedOutput()
+		txt := string(out)
+		if strings.Contains(txt, "(error") && !strings.HasPrefix(strings.TrimSpace(txt), "sat") && !strings.HasPrefix(strings.TrimSpace(txt), "unsat") {
+			continue
+		}
+		lines := strings.SplitN(strings.TrimSpace(txt), "\n", 2)
+		switch strings.TrimSpace(lines[0]) {
+		case "unsat":
+			return Unsat, nil
+		case "sat":
+			if !wantModel {
+				return Sat, nil
+			}
+			m := Model{}
+			if len(lines) == 2 && parseValues(lines[1], m) {
+				return Sat, m
+			}
+		}
+	}
+	return Unknown, nil
 }
 
 func (p *Path) replaying() bool { return p.pos < len(p.prefix) }
